@@ -54,12 +54,13 @@ func main() {
 }
 
 var genericCmds = map[string]func(common.Args, *common.Out) error{
-	"compiledet": generic.CompileDet,
-	"maprange":   extract.MapRange,
-	"pipeline":   extract.Pipeline,
-	"c10gated":   generic.C10Gated,
-	"progrun":    generic.ProgRun,
-	"satexport":  generic.SatExport,
-	"satenum":    generic.SatEnum,
-	"levelcheck": generic.LevelCheck,
+	"compiledet":  generic.CompileDet,
+	"maprange":    extract.MapRange,
+	"pipeline":    extract.Pipeline,
+	"c10gated":    generic.C10Gated,
+	"progrun":     generic.ProgRun,
+	"satexport":   generic.SatExport,
+	"satenum":     generic.SatEnum,
+	"levelcheck":  generic.LevelCheck,
+	"schemacheck": generic.SchemaCheck,
 }
